@@ -486,6 +486,21 @@ static void run_vnadata(ctx_t *c, const char *b, int n)
 		/* save at full precision and load back */
 		vnadata_t *D = vnadata_alloc(ERRFN, &lc);
 		vf_errlog_reset(&la);
+		/* first as loaded, with the parameter list the file gave
+		   it: a loader that accepts a list accepts one the saver
+		   can write for these dimensions */
+		/* (NPD only: it is the family that carries every type and
+		   dimension; a Touchstone loader may read what the Touchstone
+		   saver does not write, e.g. five ports in version 1) */
+		if (c->seed->format == F_NPD &&
+			vnadata_cksave(A, "as-loaded.npd") != 0) {
+		    vf_fail(r, "resave:as-loaded", "loaded object cannot be "
+			    "saved as NPD again with "
+			    "the format it was loaded with, "
+			    "\"%s\" (%s); input \"%s\"",
+			    vnadata_get_format(A) ? vnadata_get_format(A) :
+			    "(none)", la.count > 0 ? la.msg[0] : "?", g_inesc);
+		} else
 		if (D == NULL ||
 			vnadata_set_format(A, type_fmt[type]) != 0 ||
 			vnadata_set_fprecision(A, VNADATA_MAX_PRECISION) != 0 ||
